@@ -68,6 +68,16 @@ pub struct Workload {
     pub stay_weight: u8,
     pub clock_mode: u8,
     pub skews_ns: Vec<i64>,
+    /// actor that is stalled: it only runs when nobody else can (and, if `stall_from` > 0,
+    /// only stalls once that many scheduling steps have passed: stalls mid-operation)
+    #[serde(default)]
+    pub stalled: Option<u8>,
+    #[serde(default)]
+    pub stall_from: u16,
+    /// static fault: the output file itself cannot be opened for writing (read-only file);
+    /// the directory stays writable, so replacing it by rename still works
+    #[serde(default)]
+    pub ro_file: bool,
 }
 
 pub const F_SHORT: u32 = 1;
@@ -265,6 +275,13 @@ pub fn generate(rng: &mut Rng, thorough: bool) -> Workload {
                 }
             })
             .collect(),
+        stalled: if rng.chance(1, 6) {
+            Some(rng.below(nw as u64) as u8)
+        } else {
+            None
+        },
+        stall_from: *rng.pick(&[0u16, 0, 3, 6, 10, 14]),
+        ro_file: rng.chance(1, 12),
     }
 }
 
@@ -630,6 +647,10 @@ impl Policy for C19Policy {
         self.wl.stay_weight.max(1) as u32
     }
 
+    fn stalled(&self, actor: usize, step: u32) -> bool {
+        self.wl.stalled == Some(actor as u8) && step >= self.wl.stall_from as u32
+    }
+
     fn check(&mut self, ctx: &StepCtx) -> Result<(), Violation> {
         self.step_now = ctx.step;
         self.absorb_events(ctx.events);
@@ -680,7 +701,7 @@ impl Policy for C19Policy {
                         );
                         if gentle && t.same_at_call && !t.other_publish && !t.hard_read_fault {
                             self.probes.hit("same_contents_call_judged");
-                            if self.any_fault || self.wl.ro_dir {
+                            if self.any_fault || self.wl.ro_dir || self.wl.ro_file {
                                 self.probes.hit("same_contents_call_judged_under_fault");
                             }
                             if !ok {
@@ -780,6 +801,15 @@ impl Policy for C19Policy {
                 action = Action::Fail(libc::EACCES);
                 self.probes.fault("static_readonly_dir_EACCES");
             }
+        }
+
+        if action == Action::Proceed
+            && self.wl.ro_file
+            && op.kind == OpKind::OpenWrite
+            && op.path == OUT
+        {
+            action = Action::Fail(libc::EACCES);
+            self.probes.fault("static_readonly_output_file_EACCES");
         }
 
         if action == Action::Proceed
@@ -1065,7 +1095,7 @@ pub fn run_one(wl: &Workload, tape: &mut Tape, entropy_seed: u64) -> Result<RunR
             body: reader_body(wl.reader_reads),
         });
     }
-    let fault_free = wl.fault_pm == 0 && wl.crash_pm == 0 && !wl.ro_dir;
+    let fault_free = wl.fault_pm == 0 && wl.crash_pm == 0 && !wl.ro_dir && !wl.ro_file;
     let mut policy = C19Policy::new(wl, initial.clone(), fault_free);
     let out = sched::run(
         world.clone(),
@@ -1108,6 +1138,9 @@ pub fn run_one(wl: &Workload, tape: &mut Tape, entropy_seed: u64) -> Result<RunR
             stay_weight: 1,
             clock_mode: 0,
             skews_ns: vec![0],
+            stalled: None,
+            stall_from: 0,
+            ro_file: false,
         };
         let world2 = seam::new_world(1, true, world.now_ns());
         let mut pol2 = LivenessPolicy {};
@@ -1271,6 +1304,16 @@ impl Prop for C19 {
         if w.litter > 0 {
             let mut c = w.clone();
             c.litter = 0;
+            out.push(c);
+        }
+        if w.stalled.is_some() {
+            let mut c = w.clone();
+            c.stalled = None;
+            out.push(c);
+        }
+        if w.ro_file {
+            let mut c = w.clone();
+            c.ro_file = false;
             out.push(c);
         }
         if w.clock_mode != 0 {
